@@ -278,3 +278,193 @@ def add_remove_rules(repo, res):
         for gone in (100, 200):
             run("remove_obstacle", "%s obstacle whose lanelet %d was removed meanwhile" % (which, gone), remove_obstacle(which, True, missing=gone), "A2-TOTAL")
     run("remove_obstacle", "dynamic obstacle without a prediction, assigned at its initial time step", remove_obstacle("dynamic", True, no_prediction=True), "A2-INVERSE")
+
+
+# --------------------------------------------------------------------------- the two file readers
+RX = "commonroad/common/reader/file_reader_xml.py"
+RP = "commonroad/common/reader/file_reader_protobuf.py"
+
+
+class ReaderWorld:
+    """What an obstacle factory of a file reader is given: a lanelet network whose look-ups answer from tables keyed by
+    *which state* the queried shape was placed at / the queried point belongs to, an obstacle shape whose placement is
+    recorded, an initial state (time step 5) and two trajectory states (6, 7).  The factories' helpers that parse the
+    file (ids, types, states, shapes, trajectories) are stubbed to hand out these objects; everything that assigns
+    lanelets is evaluated."""
+
+    CENTRE = {5: (100,), 6: (200,), 7: (200, 300)}
+    SHAPE = {5: (100, 200), 6: (200,), 7: (300,)}
+
+    def __init__(self, repo, oid):
+        self.repo, self.oid = repo, oid
+        ev = self.ev = Ev(repo)
+        ev.pure_modules = {"np", "numpy", "math", "shapely", "warnings", "logging", "logger"}
+        ev.assume_valid = True
+        lan = repo.cls(LA, "Lanelet")
+        self.lanelets = {k: Obj(lan, {"_lanelet_id": k, "_static_obstacles_on_lanelet": SetV([]), "_dynamic_obstacles_on_lanelet": DictV()}, label="lanelet %d" % k) for k in LIDS}
+        self.states = {t: Obj(None, {"position": Sym("position at %d" % t, "num"), "orientation": Sym("orientation at %d" % t, "num"), "time_step": t}, closed=True, label="state at %d" % t) for t in (5, 6, 7)}
+        self.errors = []
+        self.placed = {}
+
+        def place(a, k):
+            pos, ori = (list(a) + [None, None])[:2]
+            pos = k.get("translation", k.get("position", pos))
+            ori = k.get("angle", k.get("orientation", ori))
+            o = Obj(None, {}, closed=True, label="obstacle shape placed at (%s, %s)" % (show(pos), show(ori)))
+            hit = [t for t, s in self.states.items() if pos is s.fields["position"] and ori is s.fields["orientation"]]
+            self.placed[id(o)] = (hit[0] if hit else None, o)
+            return o
+
+        self.shape = Obj(None, {"rotate_translate_local": PyFunc(place, "rotate_translate_local")}, closed=True, label="obstacle shape")
+
+        def by_shape(a, k):
+            s = a[0] if a else k.get("shape")
+            t = self.placed.get(id(s), (None, None))[0]
+            if t is None:
+                self.errors.append("lanelets are looked up by %s, which is not the obstacle's shape placed at one of its states" % show(s))
+                return ListV([])
+            return ListV(list(self.SHAPE[t]))
+
+        def by_position(a, k):
+            pts = a[0] if a else k.get("point_list")
+            out = []
+            for p in pts.items if isinstance(pts, ListV) else [pts]:
+                hit = [t for t, s in self.states.items() if p is s.fields["position"]]
+                if not hit:
+                    self.errors.append("lanelets are looked up at %s, which is not the position of one of the obstacle's states" % show(p))
+                    out.append(ListV([]))
+                else:
+                    out.append(ListV(list(self.CENTRE[hit[0]])))
+            return ListV(out)
+
+        self.net = Obj(None, {"find_lanelet_by_position": PyFunc(by_position, "find_lanelet_by_position"), "find_lanelet_by_shape": PyFunc(by_shape, "find_lanelet_by_shape"), "find_lanelet_by_id": PyFunc(lambda a, k: self.lanelets.get(a[0] if a else k.get("lanelet_id"), NONE), "find_lanelet_by_id")}, closed=True, label="lanelet network")
+        self.trajectory = Obj(None, {"state_list": ListV([self.states[6], self.states[7]]), "_state_list": ListV([self.states[6], self.states[7]]), "initial_time_step": 6, "final_state": self.states[7]}, closed=True, label="trajectory")
+        for cn in ("StaticObstacle", "DynamicObstacle"):
+            ev.ctor_models[cn] = self.recorder(repo.cls(O, cn))
+        ev.ctor_models["TrajectoryPrediction"] = self.recorder(repo.cls(P, "TrajectoryPrediction"))
+
+    def recorder(self, cls):
+        """constructor model: an object of the class whose private slots hold the arguments (the validating setters of
+        the real constructor are not the subject here; later attribute stores go through the real setters)"""
+        owner, init = self.repo.find_method(cls, "__init__")
+
+        def make(args, kwargs):
+            b = self.ev.bind_args(init, args, kwargs, drop_first=True, mod=owner.mod)
+            o = Obj(cls, {"_" + k.lstrip("_"): v for k, v in b.items()}, label="the %s read from the file" % cls.name)
+            if "_obstacle_shape" in o.fields:
+                o.fields["_shape"] = o.fields["_obstacle_shape"]
+            return o
+
+        return make
+
+    def ids(self, v):
+        if v is NONE or v is None:
+            return None
+        if isinstance(v, ListV):
+            return sorted(v.items)
+        return show(v)
+
+    def judge(self, ob, dynamic, assign):
+        bad = list(self.errors)
+        ev = self.ev
+        shape0 = self.ids(ev.getattr(ob, "initial_shape_lanelet_ids", None, None))
+        centre0 = self.ids(ev.getattr(ob, "initial_center_lanelet_ids", None, None))
+        if not assign:
+            if shape0 not in (None, []) or centre0 not in (None, []):
+                bad.append("assignment switched off, yet the obstacle carries %s / %s" % (centre0, shape0))
+            regs = [k for k, l in self.lanelets.items() if l.fields["_static_obstacles_on_lanelet"].items or l.fields["_dynamic_obstacles_on_lanelet"].d]
+            if regs:
+                bad.append("assignment switched off, yet lanelets %s register the obstacle" % regs)
+            return bad
+        if shape0 != sorted(self.SHAPE[5]):
+            bad.append("initial shape lanelets %s, the placed shape lies on %s" % (shape0, sorted(self.SHAPE[5])))
+        if centre0 != sorted(self.CENTRE[5]):
+            bad.append("initial centre lanelets %s, the centre lies on %s" % (centre0, sorted(self.CENTRE[5])))
+        want_static = {k: ([self.oid] if (not dynamic and k in self.SHAPE[5]) else []) for k in LIDS}
+        want_dyn = {k: {} for k in LIDS}
+        if dynamic:
+            for t, ks in self.SHAPE.items():
+                for k in ks:
+                    want_dyn[k][t] = [self.oid]
+            pred = ev.getattr(ob, "prediction", None, None)
+            if not isinstance(pred, Obj):
+                bad.append("the obstacle has no trajectory prediction (%s)" % show(pred))
+            else:
+                for what, table in (("shape", self.SHAPE), ("center", self.CENTRE)):
+                    got = ev.getattr(pred, "%s_lanelet_assignment" % what, None, None)
+                    gd = {k: sorted(v.items) if isinstance(v, ListV) else show(v) for k, v in got.d.items()} if isinstance(got, DictV) else show(got)
+                    if gd != {t: sorted(ks) for t, ks in table.items()}:
+                        bad.append("%s lanelets per time step %s, the look-ups give %s" % (what, gd, {t: sorted(ks) for t, ks in table.items()}))
+        for k, l in self.lanelets.items():
+            gs = sorted(l.fields["_static_obstacles_on_lanelet"].items)
+            gd = {t: sorted(v.items) for t, v in l.fields["_dynamic_obstacles_on_lanelet"].d.items() if v.items}
+            if gs != want_static[k] or gd != want_dyn[k]:
+                bad.append("lanelet %d registers static %s / dynamic %s, the inverse of the assignment is %s / %s" % (k, gs, gd, want_static[k], want_dyn[k]))
+        return bad
+
+
+def reader_rules(repo, res, RULE="A3-READERS"):
+    """Both file readers, both obstacle kinds, with and without lanelet assignment: the obstacle read carries exactly
+    the look-ups of its placed shape / its centre at each of its states, and the lanelets register it inversely."""
+    from ..strdom import ElemV, Str
+
+    def xml_node(tag, kids):
+        e = ElemV(Str.lit(tag))
+        for k in kids:
+            e.children.items.append(ElemV(Str.lit(k)))
+        return e
+
+    def run(label, rel, cname, mname, dynamic, assign, prepare):
+        cls = repo.cls(rel, cname)
+        owner, fn = repo.find_method(cls, mname)
+        if fn is None:
+            raise AnalysisError("%s.%s missing" % (cname, mname))
+        qn = "%s.%s" % (cname, mname)
+        w = ReaderWorld(repo, 47 if dynamic else 31)
+        bad = []
+        lab = "%s, lanelet assignment %s" % (label, "on" if assign else "off")
+        try:
+            first = prepare(w)
+            ob = w.ev.call_fn(w.ev.bind(fn, owner, None, via_class=ClassRef(cls)), [first, w.net, assign], {}, fn)
+            if not isinstance(ob, Obj):
+                raise Undecided("the factory returns %s" % show(ob))
+            bad = w.judge(ob, dynamic, assign)
+        except _Raise as x:
+            bad.append("raises %s" % x.what)
+        except Undecided as x:
+            raise AnalysisError("%s [%s]: %s" % (qn, lab, x))
+        res.check(RULE, "%s [%s]: assignment = look-ups of the obstacle's own shape and centre per state; registries inverse" % (qn, lab), not bad, cls.mod, fn, "%s [%s]: %s" % (qn, lab, "; ".join(bad[:3])), "an obstacle read from a file is assigned to other lanelets than the ones it occupies, or the lanelets' registries are not the inverse of its assignment", qualname=qn)
+
+    def xml_prepare(dynamic):
+        def prep(w):
+            ev = w.ev
+            st = {"read_type": lambda a: Sym("obstacle type", "num"), "read_id": lambda a: w.oid, "read_initial_state": lambda a: w.states[5], "read_initial_signal_state": lambda a: NONE, "read_shape": lambda a: w.shape, "read_wheelbase": lambda a: NONE}
+            for owner_name in ("ObstacleFactory", "StaticObstacleFactory", "DynamicObstacleFactory"):
+                for k, f in st.items():
+                    ev.stubs["%s.%s" % (owner_name, k)] = f
+            ev.stubs["SignalSeriesFactory.create_from_xml_node"] = lambda a: ListV([])
+            ev.stubs["TrajectoryFactory.create_from_xml_node"] = lambda a: w.trajectory
+            return xml_node("dynamicObstacle" if dynamic else "staticObstacle", ["type", "shape", "initialState"] + (["trajectory"] if dynamic else []))
+
+        return prep
+
+    def pb_prepare(dynamic):
+        def prep(w):
+            ev = w.ev
+            ot = repo.cls(O, "ObstacleType")
+            ev.model_calls["commonroad.scenario_definition.protobuf_format.generated_scripts.obstacle_pb2.ObstacleTypeEnum.ObstacleType.Name"] = lambda a, k: Str.lit(list(ot.enum_members())[0])
+            ev.stubs["ShapeFactory.create_from_message"] = lambda a: w.shape
+            ev.stubs["StateFactory.create_from_message"] = lambda a: w.states[5]
+            ev.stubs["SignalStateFactory.create_from_message"] = lambda a: NONE
+            ev.stubs["TrajectoryFactory.create_from_message"] = lambda a: w.trajectory
+            present = {"trajectory_prediction"} if dynamic else set()
+            msg = Obj(None, {("dynamic_obstacle_id" if dynamic else "static_obstacle_id"): w.oid, "obstacle_type": 1, "shape": Obj(None, {}, label="shape message"), "initial_state": Obj(None, {}, label="state message"), "signal_series": ListV([]), "trajectory_prediction": Obj(None, {"trajectory": Obj(None, {}, label="trajectory message"), "shape": Obj(None, {}, label="shape message")}, label="prediction message"), "HasField": PyFunc(lambda a, k: a[0].text() in present, "HasField")}, closed=True, label="obstacle message")
+            return msg
+
+        return prep
+
+    for assign in (True, False):
+        run("XML, static obstacle", RX, "StaticObstacleFactory", "create_from_xml_node", False, assign, xml_prepare(False))
+        run("XML, dynamic obstacle with trajectory", RX, "DynamicObstacleFactory", "create_from_xml_node", True, assign, xml_prepare(True))
+        run("protobuf, static obstacle", RP, "StaticObstacleFactory", "create_from_message", False, assign, pb_prepare(False))
+        run("protobuf, dynamic obstacle with trajectory", RP, "DynamicObstacleFactory", "create_from_message", True, assign, pb_prepare(True))
